@@ -104,6 +104,48 @@ class LenRes(Res):
         return 0
 
 
+# the same four kinds with coroutine responders (what falcon.asgi.App registers, add_route(..., _asgi=True))
+class ARes(Res):
+    async def on_get(self, req, resp, **kw):
+        pass
+
+
+class ADictRes(DictRes):
+    async def on_get(self, req, resp, **kw):
+        pass
+
+
+class ABoolRes(BoolRes):
+    async def on_get(self, req, resp, **kw):
+        pass
+
+
+class ALenRes(LenRes):
+    async def on_get(self, req, resp, **kw):
+        pass
+
+
+ASYNC_TWIN = {Res: ARes, DictRes: ADictRes, BoolRes: ABoolRes, LenRes: ALenRes}
+# ways an add_route CALL is refused for its resource/kwargs rather than for its template
+FAULTS = ('responder-kind', 'suffix')
+
+
+def make_tagger(prefix, veto_first):
+    """Converter classes from one factory: distinct classes, distinct behaviour, the same __name__."""
+    class Tagger(BaseConverter):
+        def __init__(self, upper=False):
+            self._upper = upper
+
+        def convert(self, value):
+            if value.startswith(veto_first):
+                return None
+            return prefix + (value.upper() if self._upper else value)
+    return Tagger
+
+
+TaggerA, TaggerB = make_tagger('A:', 'a'), make_tagger('B:', 'b')
+
+
 RES_MODES = {       # which kind of resource object the n-th add of a world registers
     0: [Res], 1: [DictRes], 2: [Res, DictRes], 3: [BoolRes, Res], 4: [Res, LenRes, DictRes], 5: [LenRes, BoolRes],
 }
@@ -172,6 +214,8 @@ def make_router(profile, late=False):
     conv = router.options.converters
     conv['veto'] = VetoConv
     conv['rest'] = RestConv
+    conv['tagA'] = TaggerA
+    conv['tagB'] = TaggerB
     if profile == 'alt':
         conv['int'] = HexIntConv
         conv['veto'] = AltVetoConv
@@ -187,8 +231,8 @@ def make_router(profile, late=False):
 class World:
     """The real router, the reference model and the history (ops) that produced them."""
 
-    def __init__(self, profile='std', res_mode=0, before=None):
-        self.profile, self.res_mode = profile, res_mode
+    def __init__(self, profile='std', res_mode=0, before=None, asgi=False):
+        self.profile, self.res_mode, self.asgi = profile, res_mode, bool(asgi)
         # other routers configured earlier in this process (recorded so that a replay in a fresh process
         # has the same neighbours); they must not matter
         self.before = list(_PROFILES_SEEN) if before is None else list(before)
@@ -196,8 +240,9 @@ class World:
         self.router = make_router(profile)
         self.model = M.Model(M.CONVERTERS_ALT if profile == 'alt' else M.CONVERTERS)
         self.n_adds = 0
-        # ['world', profile, res_mode] | ['add', template, compile, outcome, orphan_candidate] | ['find', path]
-        self.ops = [['world', profile, res_mode, self.before]]
+        # ['world', profile, res_mode, before, asgi] | ['add', template, compile, outcome, orphan_candidate, fault]
+        # | ['find', path] | ['neighbour', profile, late]
+        self.ops = [['world', profile, res_mode, self.before, self.asgi]]
         self.n_rejected = 0
         self.dead = None              # reason why this world cannot be judged further
         self.crashed = None           # add_route(compile=True) raised something that is not a refusal: the
@@ -210,22 +255,30 @@ class World:
         self.ops.append(['neighbour', profile, bool(late)])
         self.sig = None
 
-    def add(self, rec, template, compile=False, intent=None):
+    def add(self, rec, template, compile=False, intent=None, fault=None):
         kinds = RES_MODES[self.res_mode]
-        res = kinds[self.n_adds % len(kinds)](len(self.ops))
+        klass = kinds[self.n_adds % len(kinds)]
+        # responders of the kind this router's App would require, unless that is the fault to inject
+        if self.asgi != (fault == 'responder-kind'):
+            klass = ASYNC_TWIN[klass]
+        res = klass(len(self.ops))
+        kwargs = {}
+        if self.asgi:
+            kwargs['_asgi'] = True
+        if fault == 'suffix':
+            kwargs['suffix'] = 'nosuchsuffix'
+        if compile:
+            kwargs['compile'] = True
         self.n_adds += 1
         if rec is not None and not res:
             rec.count('add.falsy-resource')
         k = multi_misuse_index(template)
         orphan_cand = bool(k) and not self.model.has_prefix(M.split_template(template)[:k])
-        op = ['add', template, bool(compile), None, False]
+        op = ['add', template, bool(compile), None, False, fault]
         self.ops.append(op)
         self.sig = None
         try:
-            if compile:
-                self.router.add_route(template, res, compile=True)
-            else:
-                self.router.add_route(template, res)
+            self.router.add_route(template, res, **kwargs)
         except UnacceptableRouteError:
             op[3] = 'rej'
         except Exception as ex:  # noqa  (any refusal is a refusal; the statement does not fix the type)
@@ -256,16 +309,16 @@ class World:
             rec.count('reject.' + (intent or 'unplanned'))
             if op[3] != 'rej':
                 rec.count('reject.type.' + op[3][4:])
-        if op[3] != 'rej' and compile:
+        if op[3] != 'rej' and compile and fault is None:
             self.crashed = op[3]
-        if rec is not None and self.n_rejected and self.crashed is None:
+        if rec is not None and self.n_rejected and self.crashed is None and fault is None:
             monitor_rejection_independent(rec, self, template, compile)
         self.n_rejected += 1
         return op[3]
 
     def signature(self):
         if self.sig is None:
-            self.sig = h64([o[:3] for o in self.ops])
+            self.sig = h64([o[:3] + o[5:6] for o in self.ops])
         return self.sig
 
 
@@ -273,7 +326,7 @@ def rebuild(ops, skip=()):
     """ops[0] is the ['world', profile, res_mode] header.  Skipped adds still consume their resource
     slot so that every remaining add registers the same kind of resource object as in the original."""
     head = ops[0] if ops and ops[0][0] == 'world' else ['world', 'std', 0, []]
-    w = World(head[1], head[2], head[3] if len(head) > 3 else None)
+    w = World(head[1], head[2], head[3] if len(head) > 3 else None, head[4] if len(head) > 4 else False)
     for i, op in enumerate(ops):
         if op[0] == 'world':
             continue
@@ -286,7 +339,7 @@ def rebuild(ops, skip=()):
                 w.n_adds += 1
             continue
         if op[0] == 'add':
-            w.add(None, op[1], op[2])
+            w.add(None, op[1], op[2], fault=op[5] if len(op) > 5 else None)
         else:
             w.ops.append(list(op))
             try:
@@ -516,7 +569,20 @@ CONV_REPS = {
     ('float', 'max=0.0'): ['0.0', '0.5', '1', '-0.5', '-0', '-1'],
     ('float', 'min=-0.0'): ['0', '-0.5', '-0.0', '1', '-1'],
     ('float', 'min=0, max=0'): ['0.0', '-0.5', '0.5', '-0', '1', '-1'],
-    ('float', None): ['1.5', 'x', 'nan', '1e3'],
+    ('float', None): ['1.5', 'x', 'nan', '1e3', 'inf', '1e999'],
+    # every combination of the float options, with finite, infinite, overflowing and nan values
+    ('float', 'min=0, max=100, finite=False'): ['50', 'inf', '-inf', 'nan', '1e999', 'Infinity', '101', '-1', '-1e999'],
+    ('float', 'max=0.0, finite=False'): ['-inf', 'inf', '0.0', '1', 'nan', '1e999', '-Infinity'],
+    ('float', 'min=1.5, finite=False'): ['inf', '-inf', '1.5', '1.4', 'nan', '-1e999'],
+    ('float', 'min=0, max=100, finite=True'): ['50', 'inf', '-inf', 'nan', '101', '1e999'],
+    ('float', 'finite=True'): ['1.5', 'inf', 'nan', '-inf'],
+    ('tagA', 'True'): ['v', 'ax', 'bx'],
+    ('tagB', 'True'): ['v', 'bx', 'ax'],
+    ('tagA', 'upper=True'): ['v', 'ax', 'bx'],
+    ('tagB', 'upper=True'): ['v', 'bx', 'ax'],
+    ('tagA', None): ['v', 'ax', 'bx'],
+    ('tagB', None): ['v', 'bx', 'ax'],
+    ('tagB', 'False'): ['v', 'bx', 'ax'],
     ('float', 'min=1.5, max=2.5'): ['1.5', '1.4', '2.5', '2.6'],
     ('float', 'finite=False'): ['nan', 'x', '-inf', '1.0'],
     ('uuid', None): [U1, U1[:-1], U1.replace('-', ''), 'x'],
@@ -740,7 +806,12 @@ SPECIALS = ['/a/{p:path}/b', '/a/b/{p:path}x', '/a/{x1}/b', '/a/b/c', '/{x0}/{x1
             # or '/r/{x1}' is the fall-through)
             '/{x0:int(min=0)}', '/{x0:int(max=0)}', '/{x0:float(min=0, max=0)}', '/r/{x1}',
             '/r/{y1:int(min=0)}to{w1:int(min=0)}', '/{y0:int(min=0, max=0)}to{w0:int(max=0)}',
-            '/{y0:float(min=0)}_{w0:float(max=0.0)}', '/r/{y1:float(min=-0.0)}to{w1:int(2, min=0, max=0)}']
+            '/{y0:float(min=0)}_{w0:float(max=0.0)}', '/r/{y1:float(min=-0.0)}to{w1:int(2, min=0, max=0)}',
+            # float: the options combined (bounds with finite=False), alone and in a multi-field segment
+            '/{x0:float(min=0, max=100, finite=False)}', '/r/{y1:float(max=0.0, finite=False)}_{w1:float(min=1.5, finite=False)}',
+            # two converter classes that share a __name__, used with textually identical arguments
+            '/t/{x1:tagA(True)}', '/u/{x1:tagB(True)}', '/u/{y1:tagB(upper=True)}_{w1:tagA(upper=True)}',
+            '/t/{x1:tagA(True)}/{x2:tagB(True)}']
 REFUSED_SPECIALS = [
             # multi-field segments with 2-3 converter fields and a multi-segment converter at every position
             # (expected to be refused; if one is accepted, the lookups that follow must still not fail)
@@ -821,6 +892,44 @@ def exhaustive(rec):
     return all_complete
 
 
+# ---------------------------------------------------------------- add_route calls refused for the resource
+
+def refused_calls(rec):
+    """For every template of the pair vocabulary (and the accepted specials), on a WSGI-style and on an
+    ASGI-style router: an add_route call that is refused because of its resource (responders of the
+    wrong kind) or its kwargs (suffix without responders) - once for the template that is already
+    routed (would replace the route) and once for a new template - then lookups, then an accepted add
+    (forces a recompile), then lookups.  Enumerated completely, sharded by index."""
+    T = templates_over(PAIR_SHAPES[rec.tier]) + SPECIALS
+    idx = 0
+    for t in T:
+        for asgi in (False, True):
+            for fault in FAULTS:
+                for cflag in (False, True):
+                    idx += 1
+                    if idx % rec.nshards != rec.shard:
+                        continue
+                    new = '/zz9/{fq}' if not t.startswith('/zz9') else '/zz7/{fq}'
+                    paths = list(all_paths(level_reps([t], lean=True))) + ['/zz9/v', '/zz9', '/zz8', '/zz9/v/']
+                    w = World('alt' if idx % 5 == 0 else 'std', idx % len(RES_MODES), asgi=asgi)
+                    rec.count('world.profile.' + w.profile)
+                    if w.add(rec, t, compile=cflag) != 'ok':
+                        continue
+                    rec.count('world.asgi' if asgi else 'world.wsgi')
+                    run_batch(rec, w, paths)
+                    w.ops.append(['find', '/'])
+                    for target in (t, new):
+                        w.add(rec, target, compile=cflag, intent=fault, fault=fault)
+                        run_batch(rec, w, paths)
+                        w.ops.append(['find', '/'])
+                        rec.count('reject-then-lookups.' + fault)
+                    if w.dead is None:
+                        w.add(rec, '/zz8', compile=not cflag)
+                        run_batch(rec, w, paths)
+                    rec.count('refused-calls.scenarios')
+    rec.count('refused-calls.done')
+
+
 # ---------------------------------------------------------------- several routers in one process
 
 COHAB_T = ['/n/{v1:int}', '/m/{a1:int(2)}-{b1:veto}', '/h/{x1}', '/f/{g1:float}']
@@ -873,6 +982,10 @@ LIT_TOKENS = ['a', 'b', 'ab', 'abc', 'A', 'x', '1', '12', '.', '+', '(', ')', '[
               '-', '_', '~', '%41', 'é', ',', ';', '=', '@', '!', '&', '#', '"']
 HOSTILE_TOKENS = ["'", '\\', '\\d', '\\b', "a'b", '\\n']
 CONV_CHOICES = [None, None, None, ('int', None), ('int', '2'), ('int', 'min=5, max=10'), ('int', '2, min=10, max=50'),
+                ('float', 'min=0, max=100, finite=False'), ('float', 'max=0.0, finite=False'),
+                ('float', 'min=1.5, finite=False'), ('float', 'min=0, max=100, finite=True'), ('float', 'finite=True'),
+                ('tagA', 'True'), ('tagB', 'True'), ('tagA', 'upper=True'), ('tagB', 'upper=True'), ('tagA', None),
+                ('tagB', 'False'),
                 ('int', 'min=0'), ('int', 'max=0'), ('int', 'min=0, max=0'), ('int', '2, min=0'),
                 ('int', '2, min=0, max=0'), ('int', 'num_digits=2, max=0'), ('float', 'min=0'), ('float', 'max=0.0'),
                 ('float', 'min=-0.0'), ('float', 'min=0, max=0'),
@@ -1066,7 +1179,7 @@ def random_history(rec, rng):
     orphaning = 0.12 <= fam < 0.27
     newline = 0.27 <= fam < 0.5
     g = Gen(rng, hostile, orphaning)
-    w = World('alt' if rng.random() < 0.3 else 'std', rng.randrange(len(RES_MODES)))
+    w = World('alt' if rng.random() < 0.3 else 'std', rng.randrange(len(RES_MODES)), asgi=rng.random() < 0.25)
     rec.count('world.profile.' + w.profile)
     accepted, attempted = [], []
     n_adds = rng.randint(3, 14)
@@ -1076,15 +1189,19 @@ def random_history(rec, rng):
         rec.count('history.hostile-literals')
     for step in range(n_adds):
         r = rng.random()
-        intent = None
+        intent = fault = None
         if accepted and r < 0.1:
             t = rng.choice(accepted)                     # same template again: the route is replaced
         elif r < 0.35:
             t, intent = g.rejectable(accepted)
+        elif r < 0.42:
+            # the call is refused for its resource / kwargs: on a template already routed, or on a new one
+            fault = intent = rng.choice(FAULTS)
+            t = rng.choice(accepted) if accepted and rng.random() < 0.5 else g.template(accepted)
         else:
             t = g.template(accepted)
         attempted.append(t)
-        out = w.add(rec, t, compile=rng.random() < 0.3, intent=intent)
+        out = w.add(rec, t, compile=rng.random() < 0.3, intent=intent, fault=fault)
         if w.dead is not None:
             break
         if out == 'ok':
@@ -1123,6 +1240,7 @@ def run(rec):
                        'acceptance of a template is observed from the real router, never predicted']
     rec.counters['keyed'] = 0
     cohabitation(rec)
+    refused_calls(rec)
     complete = exhaustive(rec)
     rec.exhaustive = bool(complete)
     if rec.shard == 0:
@@ -1141,6 +1259,14 @@ def run(rec):
     rec.floor('exhaustive.pairs-done', rec.nshards)
     rec.floor('exhaustive.triples-done', rec.nshards)
     rec.floor('cohabitation.done', rec.nshards)
+    rec.floor('refused-calls.done', rec.nshards)
+    rec.floor('refused-calls.scenarios', 200)
+    rec.floor('world.asgi', 50)
+    for f in FAULTS:
+        rec.floor('reject.' + f, 50)
+        rec.floor('reject-then-lookups.' + f, 50)
+    for c in ('tagA', 'tagB'):
+        rec.floor('veto.' + c, 5)
     rec.floor('cohabitation.scenarios', 48)
     rec.floor('world.profile.alt', 100)
     rec.floor('world.profile.std', 100)
@@ -1169,9 +1295,9 @@ def replay(rec, w):
     rec.counters['keyed'] = 0
     ops = wit['ops']
     head = ops[0] if ops and ops[0][0] == 'world' else ['world', 'std', 0, []]
-    world = World(head[1], head[2], head[3] if len(head) > 3 else None)
-    print('router profile %s, resource mode %s, routers configured earlier in the process: %s' % (
-        head[1], head[2], world.before))
+    world = World(head[1], head[2], head[3] if len(head) > 3 else None, head[4] if len(head) > 4 else False)
+    print('router profile %s, resource mode %s, asgi %s, routers configured earlier in the process: %s' % (
+        head[1], head[2], world.asgi, world.before))
     for op in ops:
         if op[0] == 'world':
             continue
@@ -1179,8 +1305,9 @@ def replay(rec, w):
             world.neighbour(op[1], op[2])
             print('another router created: profile %s%s' % (op[1], ' + late registrations' if op[2] else ''))
         elif op[0] == 'add':
-            out = world.add(rec, op[1], op[2])
-            print('add_route(%r, compile=%r) -> %s' % (op[1], op[2], out))
+            fault = op[5] if len(op) > 5 else None
+            out = world.add(rec, op[1], op[2], fault=fault)
+            print('add_route(%r, compile=%r%s) -> %s' % (op[1], op[2], ', fault=%s' % fault if fault else '', out))
         else:
             try:
                 world.router.find(op[1])
